@@ -23,12 +23,14 @@ META = {
     "conditional extends) with every flag assignment, plus depth 3 with one block, plus self.<block>() calls from the "
     "root layout on literal chains, plus small plans for scoped blocks inside if / with / a nested loop within a for "
     "(overrides printing loop.index/loop.length) and for block bodies that use self.y() and super()/super.super() "
-    "together (thorough: additionally depth 3 with two blocks - all kinds on literal chains, a "
+    "together, for scoped blocks in buffered frames (filter block, set block, recursive loop), and an "
+    "enable_async=True twin render of the scoped-block plans (thorough: additionally depth 3 with two blocks - all kinds on literal chains, a "
     "reduced kind set under all extends forms -, depth 4 with one block, three blocks at depth <= 2). Marker text before/between/after blocks and on both sides of "
     "the extends tag makes every misplaced or unsuppressed output visible. The whole rendered string or the exception "
     "class (TemplateRuntimeError / UndefinedError) must equal the resolver's answer.",
     "note": "Bounded: depth <= 3 (4), block names <= 2 (3), one definition shape per block and template, loop of two "
-    "values; sync default Environment only (async parity is C09); self-recursive block calls are excluded. Three "
+    "values; sync default Environment, plus an enable_async=True twin of the scoped-block sub-plans (full async "
+    "parity is C09); self-recursive block calls are excluded. Three "
     "resolver rules are calibrated from the tree (see assumptions).",
     "design_ref": "DESIGN.md §4 C04, §3 R-inh",
 }
@@ -58,14 +60,14 @@ def cpu_alarm(seconds):
         signal.signal(signal.SIGPROF, old)
 
 
-def _script(case):
+def _script(case, is_async=False):
     src, main, data = gen_inh.to_templates(case)
     d = {k: (("$template", v.name) if isinstance(v, gen_inh.TemplateRef) else v) for k, v in data.items()}
     return (
         "import jinja2\n"
         f"src = {src!r}\n"
         f"main, data = {main!r}, {d!r}\n"
-        "env = jinja2.Environment(loader=jinja2.DictLoader(src))\n"
+        f"env = jinja2.Environment(loader=jinja2.DictLoader(src), enable_async={is_async!r})\n"
         "data = {k: (env.get_template(v[1]) if isinstance(v, tuple) else v) for k, v in data.items()}\n"
         "for n in sorted(src):\n"
         "    print(n, '=', src[n])\n"
@@ -107,36 +109,47 @@ def classify(case, got, exp):
     return sigs + [_generic(case, got, exp)]
 
 
+def _one(p, case, got, exp, mode):
+    depth = len(case[1])
+    p.count(f"cases_depth{depth}_blocks{len(case[0])}" + ("_async" if mode else ""))
+    if isinstance(got, tuple):
+        p.count("raised_" + got[1])
+        p.sig(("exc", got[1], depth, mode))
+    else:
+        tags = _TAG.findall(got)
+        if depth > 1 or tags:
+            p.sig("".join(tags) + "/" + str(got.count("^")) + mode)
+    if got != exp:
+        for sig in classify(case, got, exp):
+            p.violation(sig + ("/async" if mode else ""), {
+                "msg": f"case={gen_inh.tojson(case)} templates={gen_inh.to_templates(case)[0]} "
+                       + ("enable_async=True " if mode else "") + f"rendered {got!r}, R-inh expects {exp!r}",
+                "case": gen_inh.tojson(case), "got": repr(got), "expected": repr(exp), "async": bool(mode),
+                "script": _script(case, bool(mode)),
+            })
+    if p.evals % 97 == 1:
+        p.sample({"case": gen_inh.tojson(case), "async": bool(mode),
+                  "outcome": got if isinstance(got, str) else list(got)}, cap=2)
+
+
+def _render(case, env_kwargs=None):
+    try:
+        with cpu_alarm(20):
+            return gen_inh.render(case, env_kwargs)
+    except core.CaseTimeout:
+        return ("exc", "Hang(20 s CPU)")
+
+
 def shard(arg) -> core.Part:
     bound, k, n = arg
     p = core.Part()
     for case in gen_inh.cases(bound, shard=(k, n)):
         p.evals += 1
-        try:
-            with cpu_alarm(20):
-                got = gen_inh.render(case)
-        except core.CaseTimeout:
-            got = ("exc", "Hang(20 s CPU)")
-        exp = gen_inh.expected(case)
-        depth = len(case[1])
-        p.count(f"cases_depth{depth}_blocks{len(case[0])}")
-        if isinstance(got, tuple):
-            p.count("raised_" + got[1])
-            p.sig(("exc", got[1], depth))
-        else:
-            tags = _TAG.findall(got)
-            if depth > 1 or tags:
-                p.sig("".join(tags) + "/" + str(got.count("^")))
-        if got != exp:
-            for sig in classify(case, got, exp):
-                p.violation(sig, {
-                    "msg": f"case={gen_inh.tojson(case)} templates={gen_inh.to_templates(case)[0]} "
-                           f"rendered {got!r}, R-inh expects {exp!r}",
-                    "case": gen_inh.tojson(case), "got": repr(got), "expected": repr(exp),
-                    "script": _script(case),
-                })
-        if p.evals % 97 == 1:
-            p.sample({"case": gen_inh.tojson(case), "outcome": got if isinstance(got, str) else list(got)}, cap=2)
+        _one(p, case, _render(case), gen_inh.expected(case), "")
+    # async twin of the plans flagged for it: same chains, Environment(enable_async=True), Template.render
+    for case in gen_inh.async_cases(bound, shard=(k, n)):
+        p.evals += 1
+        _one(p, case, _render(case, {"enable_async": True}), gen_inh.expected(case), "async")
     return p
 
 
